@@ -104,7 +104,7 @@ OnDeliver(pc, pm, ev) ==
                                                    "C13:preflight-abort-not-honoured">> >>)
         \* forward the delivery to the loop monitors of an admitted call with retry
         pm2 == IF pc.retry /\ pm.admitted
-               THEN WithLoop(pc, pm1, [e |-> "deliver", mode |-> ev.mode, v |-> v, t |-> 0])
+               THEN WithLoop(pc, pm1, [e |-> "deliver", mode |-> ev.mode, v |-> v, t |-> 0, gap |-> 0])
                ELSE pm1
     IN  [pm2 EXCEPT !.admitted = FALSE, !.refused = FALSE, !.preabort = FALSE, !.m = RM!MInit]
 
